@@ -392,6 +392,27 @@ def check(pid, tier, seed, replay=None):
     if hasattr(mod, "prepare"):
         mod.prepare(seed, tier)
     rc, out = cargo_build(pkgs)
+    build_note = None
+    tries = 0
+    while rc != 0 and hasattr(mod, "on_build_failure") and tries < 6:
+        # a generated crate that no longer compiles against /repo (a macro regression that only some of the generated
+        # definitions hit): the property module may take the failing definitions out, so that the rest can still be
+        # run and, where the regression also changes bytes or values, yield a concrete failing input
+        tries += 1
+        what = mod.on_build_failure(out)
+        if not what:
+            break
+        build_note = (build_note + "; " if build_note else "") + what
+        rc, out = cargo_build(pkgs)
+    if rc == 0 and build_note:
+        log("harness build failed at first: " + build_note)
+        payload = {"property": pid, "kind": "harness-build-failure-partial", "note": build_note}
+        p = write_replay(pid, "build", payload)
+        print(f"VIOLATION property={pid} replay={p} no-failing-input-found")
+        notes = notes + ["generated definitions no longer compile against /repo: " + build_note]
+        violations_pre = 1
+    else:
+        violations_pre = 0
     if rc != 0:
         log(out[-6000:])
         log("harness build failed: /repo does not compile against the harness")
@@ -519,6 +540,8 @@ def check(pid, tier, seed, replay=None):
         rcode = 1
     for p, no_input in violations:
         print(f"VIOLATION property={pid} replay={p}" + (" no-failing-input-found" if no_input else ""))
+        rcode = 1
+    if violations_pre:
         rcode = 1
 
     if rp is not None:
